@@ -328,7 +328,7 @@ def SortGood (ms : MacroSem) (c : Ctx) (σ : MState) (asg : List String) (e : CE
 theorem sortGood_all (ms : MacroSem) (hms : MsOK ms) (c : Ctx) (σ : MState) (hinv : C05.SInv c σ) (asg : List String)
     (e : CExpr) : SortGood ms c σ asg e := by
   refine CExpr.rec (motive_1 := SortGood ms c σ asg) (motive_2 := fun _ => True)
-    ?reg ?imm ?lit ?var ?cast ?un ?not ?bin ?shift ?cmp ?log ?tern ?macroc ?load ?post ?call ?stmtexpr ?seqexpr ?nil ?cons e
+    ?reg ?imm ?lit ?var ?cast ?un ?not ?bin ?shift ?cmp ?log ?tern ?macroc ?load ?post ?call ?stmtexpr ?seqexpr ?callx ?xmacro ?nil ?cons e
   case reg =>
     intro n k t hwf ce hce
     simp only [WFES] at hwf
@@ -431,6 +431,8 @@ theorem sortGood_all (ms : MacroSem) (hms : MsOK ms) (c : Ctx) (σ : MState) (hi
   case call => intro n a r p _ hwf; simp [WFES] at hwf
   case stmtexpr => intro t v e _ hwf; simp [WFES] at hwf
   case seqexpr => intro n x a p v _ _ hwf; simp [WFES] at hwf
+  case callx => intro n x a r p _ hwf; simp [WFES] at hwf
+  case xmacro => intro n x r hwf; simp [WFES] at hwf
   case nil => trivial
   case cons => intros; trivial
 
